@@ -270,6 +270,16 @@ def run_case(case, seed):
                            'reported %r, Rayleigh quotient %r' % (lam_, np.vdot(xv, A @ xv) / np.vdot(xv, (Bm @ xv) if g else xv)))
                     r.true('power_method:converged', abs(lam_ - evals[target]) <= 1e-7 and overlap(xv, (Bm @ evecs[:, target]) if False else evecs[:, target]) >= 1 - 1e-7,
                            'sigma %g: got %r expected %r overlap %r' % (sigma, lam_, evals[target], overlap(xv, evecs[:, target])))
+            # a shift that agrees with the eigenvalue to 13 digits (the converged estimate of an earlier run): the nearly singular solve
+            # is what inverse iteration lives on -- it amplifies the wanted direction and must converge at once
+            with r.op('power_method:close-shift:call'):
+                lam_, x = evp.power_method(Aop, gm, operator_gevp=Bop, repeats=3, sigma=float(evals[target]) + 1e-13 * (1 + abs(float(evals[target]))))
+                if meta_problem(x) is None and np.all(np.isfinite(vec(x))):
+                    xv = vec(x)
+                    r.true('power_method:close-shift:converged', abs(lam_ - evals[target]) <= 1e-7 and overlap(xv, evecs[:, target]) >= 1 - 1e-7,
+                           'shift = eigenvalue + 1e-13: got %r expected %r overlap %r' % (lam_, evals[target], overlap(xv, evecs[:, target])))
+                else:
+                    r.count('power_method_close_shift_singular')
             for reps in (1, 2, 3):
                 with r.op('power_method:call'):
                     lam_, x = evp.power_method(Aop, gm, operator_gevp=Bop, repeats=reps, sigma=float(evals[target] + 0.3))
